@@ -23,6 +23,12 @@ int gettimeofday(struct timeval *restrict tv, void *restrict tz) {
 	tv->tv_usec = ts.tv_nsec / 1000;
 	return 0;
 }
+// SQLite's PRNG (WAL salts, temp names) is seeded from the VFS (/dev/urandom)
+// unless a seed is configured through the documented test-control verb.
+extern int sqlite3_test_control(int op, ...);
+static void verif_seed_sqlite(unsigned int seed) {
+	sqlite3_test_control(28, (int)seed, (void*)0); // 28 = SQLITE_TESTCTRL_PRNG_SEED
+}
 static void verif_set_now(long long us) { verif_now_us = us; }
 static long long verif_get_now(void) { return verif_now_us; }
 */
@@ -37,3 +43,7 @@ func Set(t time.Time) { C.verif_set_now(C.longlong(t.UnixMicro())) }
 func Unset() { C.verif_set_now(0) }
 
 func Get() time.Time { return time.UnixMicro(int64(C.verif_get_now())) }
+
+// SeedSQLite makes SQLite's internal PRNG (WAL salts, temporary names) a
+// function of seed (0 restores seeding from the OS).
+func SeedSQLite(seed uint32) { C.verif_seed_sqlite(C.uint(seed)) }
